@@ -114,15 +114,18 @@ func (in *HInst) do(call *tla.Value) (o HObs) {
 		f = in.hs[i]
 	}
 	switch op {
-	case "open":
+	case "open", "create":
 		fl := 0
+		if op == "create" {
+			fl = hackpadfs.FlagCreate
+		}
 		switch call.F("acc").S {
 		case "RO":
-			fl = hackpadfs.FlagReadOnly
+			fl |= hackpadfs.FlagReadOnly
 		case "WO":
-			fl = hackpadfs.FlagWriteOnly
+			fl |= hackpadfs.FlagWriteOnly
 		case "RW":
-			fl = hackpadfs.FlagReadWrite
+			fl |= hackpadfs.FlagReadWrite
 		}
 		if call.F("app").B {
 			fl |= hackpadfs.FlagAppend
@@ -130,7 +133,7 @@ func (in *HInst) do(call *tla.Value) (o HObs) {
 		if call.F("tr").B {
 			fl |= hackpadfs.FlagTruncate
 		}
-		h, err := hackpadfs.OpenFile(in.fs, "f", fl, 0)
+		h, err := hackpadfs.OpenFile(in.fs, "f", fl, 0644)
 		o.Err = err
 		if err == nil {
 			in.hs[i] = h
